@@ -153,12 +153,25 @@ func (e *EnvReader) Pos() int { return e.pos }
 
 // Src is what the code under test is given: the reader itself or, with Cfg.Len, a wrapper whose dynamic type also has
 // Len() int = number of bytes the next Read can deliver without blocking (NOT the bytes still to come).
+//
+// With an ODD chunk size (1, 7, 4097, ...) the source is handed over as a struct VALUE (value receiver) instead of a
+// pointer: io.Reader is an interface and callers implement it on either; the stream is the same.
 func (e *EnvReader) Src() io.Reader {
 	if e.Cfg.Len {
 		return &envReaderLen{e}
 	}
+	if e.Cfg.Chunk%2 == 1 {
+		return envReaderVal{inner: e, tag: 1}
+	}
 	return e
 }
+
+type envReaderVal struct {
+	inner *EnvReader
+	tag   int
+}
+
+func (v envReaderVal) Read(p []byte) (int, error) { return v.inner.Read(p) }
 
 type envReaderLen struct{ *EnvReader }
 
@@ -321,12 +334,24 @@ type EnvWriter struct {
 
 // Sink is what the code under test is given: the writer itself or, with Rich, a wrapper that also offers WriteString and
 // ReadFrom (as files, buffers and connections do), each with exactly the semantics of Write.
+//
+// A sink whose injected failure is at an EVEN call number (incl. 0 = never) is handed over as a struct VALUE.
 func (w *EnvWriter) Sink() io.Writer {
 	if w.Rich {
 		return &envWriterRich{w}
 	}
+	if w.FailAt%2 == 0 {
+		return envWriterVal{inner: w, tag: 1}
+	}
 	return w
 }
+
+type envWriterVal struct {
+	inner *EnvWriter
+	tag   int
+}
+
+func (v envWriterVal) Write(p []byte) (int, error) { return v.inner.Write(p) }
 
 type envWriterRich struct{ *EnvWriter }
 
